@@ -1,11 +1,16 @@
 #!/bin/sh
 # Re-runs every seeded change of /verif/seeded against the quick tier of the checks named in
 # its meta.json ("caught_by"), and writes seeded/RESULTS.txt.  Takes a while (about 1-2 min per change).
+# An optional argument restricts the run to the changes whose id matches the shell pattern
+# (e.g. 'W8-*'); their lines of RESULTS.txt are replaced, the others kept.
 cd /verif
-: > seeded/RESULTS.txt
+pat="${1:-*}"
+if [ "$pat" = "*" ]; then : > seeded/RESULTS.txt; fi
 for d in seeded/*/; do
   id=$(basename $d)
   [ -f $d/patch.diff ] || continue
+  case "$id" in $pat) ;; *) continue ;; esac
+  grep -v "^$id: " seeded/RESULTS.txt > seeded/RESULTS.tmp 2>/dev/null; mv seeded/RESULTS.tmp seeded/RESULTS.txt
   pf=$d/patch.diff
   # a change whose site was touched by a later fix is kept in its original form and re-made on the current tree
   [ -f $d/patch.current.diff ] && pf=$d/patch.current.diff
